@@ -187,7 +187,7 @@ def update_pre(S, self, date, data, inow):
 
 def update_contract():
     return RelationalContract(
-        "bt.core.StrategyBase.update", [("date", "date"), ("data", "none"), ("inow", "optint")], apply_update, pre=None, self_cls="StrategyBase",
+        "bt.core.StrategyBase.update", [("date", "date"), ("data", "optdata"), ("inow", "optint")], apply_update, pre=None, self_cls="StrategyBase",
         note="modifies only the subtree of the receiver (fields in update_modkeys) and root.stale; ensures now == date, NaN-free value/notional/price",
     )
 
@@ -276,8 +276,16 @@ def _loop2_inv(ctx):
     notl_val = ctx.entry.locals["notl_val"]
     h = st.heap
     out = []
+    if ctx.phase == "init":
+        st.ghost["loop2_entry"] = ctx.entry.heap
     if st.ghost.get("flattened"):
         out.append(("still-flagged-bankrupt", h.get(self, "bankrupt")))
+        # after the liquidation the first value read of an active child re-enters update: nothing stays pending
+        rt_ = h.get(self, "root")
+        out.append(("liquidation-is-refreshed-once-a-child-is-read", ForallInt(0, ctx.i, lambda j: Implies(_act2(E, self, j), Not(h.get(rt_, "stale"))), name="jb")))
+        # as long as nothing has been refreshed the skip flags are those the loop started with
+        nkids = E.list_len(self, "_childrenv")
+        out.append(("skip-flags-unchanged-until-refresh", ForallInt(0, nkids, lambda j: Implies(h.get(rt_, "stale"), h.get(_children(E, self, j), "_needupdate") == E.get(_children(E, self, j), "_needupdate")), name="jn")))
         return out
     rt = h.get(self, "root")
     out.append(("root-not-stale", Not(h.get(rt, "stale"))))
@@ -290,8 +298,9 @@ def _loop2_inv(ctx):
 def _loop2_havoc(ctx):
     self = ctx.entry.locals["self"]
     if ctx.entry.ghost.get("flattened"):
-        # after a bankruptcy the first getter re-enters update: anything in the tree may change
-        return list(update_modkeys()) + ["stale"]
+        # after a bankruptcy the first getter re-enters update: anything in the tree may change (root.stale only through update's own store)
+        rt0 = ctx.entry.heap.get(self, "root")
+        return list(update_modkeys()) + [("stale", lambda i: (lambda x: x == rt0.term))]
 
     kids = ctx.entry.heap.ensure("_childrenv").select(self.term)
 
@@ -304,6 +313,7 @@ def _loop2_havoc(ctx):
 
 def _loop2_on_iter(ctx, c):
     st = ctx.cur
+    st.ghost["loop2_entry"] = ctx.entry.heap
     self = st.locals["self"]
     for f in child_facts(ctx.entry.heap, self, ctx.i):
         st.assume(_zb(f))
@@ -351,6 +361,9 @@ def _loop3_inv(ctx):
     out = []
     if st.ghost.get("flattened"):
         out.append(("still-flagged-bankrupt", h.get(self, "bankrupt")))
+        rt_ = h.get(self, "root")
+        # reading a child's index can only resolve pending changes, never create them
+        out.append(("refresh-only", Implies(Not(E.get(E.get(self, "root"), "stale")), Not(h.get(rt_, "stale")))))
         return out
     rt = h.get(self, "root")
     out.append(("root-not-stale", Not(h.get(rt, "stale"))))
@@ -367,7 +380,8 @@ def cs_idx(date):
 def _loop3_havoc(ctx):
     self = ctx.entry.locals["self"]
     if ctx.entry.ghost.get("flattened"):
-        return list(update_modkeys()) + ["stale"]
+        rt0 = ctx.entry.heap.get(self, "root")
+        return list(update_modkeys()) + [("stale", lambda i: (lambda x: x == rt0.term))]
     E = ctx.entry.heap
     names = E.ensure("_strat_children").select(self.term)
     kids = E.ensure("children").select(self.term)
@@ -393,9 +407,13 @@ LOOP3 = LoopSpec(_loop3_inv, havoc_heap=_loop3_havoc, on_iter=_loop3_on_iter, na
 def apply_flatten(ex, st, recv, args, exact=False):
     heap = st.heap
     rt = heap.get(recv, "root")
+    parent = heap.get(recv, "parent")
+    isroot = parent.term == recv.term
+    k = cidx_f(recv.term)
 
     def cond(x):
-        return treeof_f(x) == rt.term
+        # the receiver's own subtree (the whole tree for a root); its securities charge the receiver itself
+        return z3.If(isroot, treeof_f(x) == rt.term, slot_f(parent.term, x) == k)
 
     for key in update_modkeys():
         if key.split("#")[0] in ("bankrupt", "now"):
@@ -621,6 +639,11 @@ def verify_update(ex, contract, timeout_ms=30000, restrict=None, variant=None):
                 Vt = capE + C + V
                 newly = And(F.get(self, "root").term == self.term, Not(E.get(self, "bankrupt")), Not(fi_flag))
                 ob("bankrupt:flagged-only-when-negative-root", And(newly, F.get(self, "bankrupt")), ("C16",))
+                if has_children:
+                    L2E = st.ghost.get("loop2_entry")
+                    rtF = F.get(self, "root")
+                    ob("bankrupt:liquidation-recorded-before-update-returns(no-pending-change-if-any-child-is-active)",
+                       ForallInt(0, n, lambda j, F=F, L2E=L2E: Implies(_act2(L2E if L2E is not None else F, self, j), Not(F.get(rtF, "stale"))), name="jb"), ("C16", "C08", "C01"))
             for o in obligs[nb:]:
                 if not isinstance(o.goal, ForallInt):
                     o.group = xi
